@@ -537,15 +537,19 @@ pub fn finish(meta: &Meta, tier: Tier, seed: u64, total: Summary, wall: f64, nwo
     }
     let lm: Vec<String> = total.landmarks.iter().map(|(k, v)| format!("{k}={v}")).collect();
     println!("  landmarks: {}", lm.join(" "));
-    if !vacuous.is_empty() {
-        eprintln!(
-            "MACHINERY-ERROR property={} vacuous exploration: landmarks never hit: {:?}",
-            meta.id, vacuous
-        );
-        return 2;
-    }
     if unknown.is_empty() {
+        if !vacuous.is_empty() {
+            eprintln!(
+                "MACHINERY-ERROR property={} vacuous exploration: landmarks never hit: {:?}",
+                meta.id, vacuous
+            );
+            return 2;
+        }
         return 0;
+    }
+    if !vacuous.is_empty() {
+        // a defect that makes every case fail early can starve a landmark: the violation is the verdict
+        eprintln!("note: property={} landmarks never hit: {:?}", meta.id, vacuous);
     }
     std::fs::create_dir_all(format!("{}/replays", verif_dir())).ok();
     for (i, v) in unknown.iter().enumerate() {
